@@ -423,8 +423,13 @@ def _(repo):
 @anchor("G_rar", "init")
 def _(repo):
     f = find_func(parse(repo, RAR), "init_rar")
-    ta = [c for c in calls_to(f, "eqx.tree_at") if "rar_iter_from_last_sampling" in ast.unparse(c.args[0])]
-    c = one(ta, "tree_at on the counter")
+    f = _LiveModuleBranch().visit(copy.deepcopy(f))
+    # the counter reset must be kept: `data = eqx.tree_at(<counter>, data, ...)`, and `data` is what init_rar returns
+    ta = [n.value for n in ast.walk(f) if isinstance(n, ast.Assign) and ast.unparse(n.targets[0]) == "data" and isinstance(n.value, ast.Call)
+          and ast.unparse(n.value.func) == "eqx.tree_at" and "rar_iter_from_last_sampling" in ast.unparse(n.value.args[0])]
+    c = one(ta, "data = tree_at on the counter")
+    if ast.unparse(c.args[1]) != "data" or ast.unparse(one(returns(f), "return of init_rar")) != "(data, _rar_step_true, _rar_step_false)":
+        raise Untranslatable("init_rar does not return the updated generator")
     g = find_func(parse(repo, DG), "_check_and_set_rar_parameters")
     i0 = one([s for s in g.body if isinstance(s, ast.If) and ast.unparse(s.test) == "rar_parameters is not None" and s.orelse], "rar block")
     cnt0 = one(assigns(wrap(i0.body), "rar_iter_from_last_sampling"), "ctor counter")
